@@ -534,15 +534,18 @@ P('C06', 'other',
    lambda c: RM.r06_aggregation(c, 'R06.2', 'R06.3'),
    lambda c: r06_4_matrix_fills(c, 'R06.4'),
    lambda c: _sigma(c, [isi_family(c), spike_family(c), discrete_families(c).get('sync')], 'R06.5', ('sym',)),
-   lambda c: r18_1_guarded_divisions(c, 'R06.6', 'R06.6', modules={'pyspike.spike_sync', 'pyspike.generic', 'pyspike.spike_directionality'})],
+   lambda c: r18_1_guarded_divisions(c, 'R06.6', 'R06.6', modules={'pyspike.spike_sync', 'pyspike.generic', 'pyspike.spike_directionality'}),
+   lambda c: add_kernel_symmetry(c, eng(c), 'R06.7', {'PieceWiseConstFunc', 'PieceWiseLinFunc', 'DiscreteFunc'})],
   "R06.1 all 7 pair comprehensions enumerate every unordered pair once (outer range complete, inner start exactly i+1, one kind per pair); "
   "R06.2 divide-and-conquer splits into complementary slices, leaves evaluate pairs[0], halves combined by add; R06.3 1/M with M = number of "
   "pairs for ISI/SPIKE, no rescaling for discrete profiles, mean / pooled ratio on the scalar routes; R06.4 matrices: zeros init, mirrored "
   "entry, pair order, full SPIKE-Sync diagonal; R06.5 kernel symmetry makes each pair value independent of the order inside the pair; R06.6 the "
-  "pooled ratio tests the variable it divides by (order independence of the guard)."
+  "pooled ratio tests the variable it divides by (order independence of the guard); R06.7 (=R09.8/R11.6) the three profile-addition kernels are "
+  "invariant under exchanging their operands (sigma(P) == P), so the summed multivariate profile does not depend on the order in which the pair "
+  "profiles are added."
   + NOT_DECIDED + "independence of floating-point summation order; equality of the D&C sum to the mean at every time (needs C09 as values).",
   [],
-  {'R06.1': 18, 'R06.2': 6, 'R06.3': 7, 'R06.4': 8, 'R06.5': 12})
+  {'R06.1': 18, 'R06.2': 6, 'R06.3': 7, 'R06.4': 8, 'R06.5': 12, 'R06.7': 6})
 
 P('C07', 'other',
   [lambda c: merge_idiom_obs(c, [f for f in eng(c).families if not f.wrapper.cls], 'R07.0'),
